@@ -95,6 +95,8 @@ elif name == "m8_fd_leak":
 elif name == "m9_restore_stale":   # restores the binding found at restore time minus nothing: writes `patched` back
     sub(pe, "            for module, func_name, original in originals:\n                setattr(module, func_name, original)\n",
         "            for module, func_name, original in originals:\n                setattr(module, func_name, getattr(original, '__wrapped__', original) if False else patched)\n")
+elif name == "m10_aes_patch_only_on_open_failure":   # revert of repo fix f4a7d41
+    sub(pe, "    if reader.is_encrypted:\n", "    if False and reader.is_encrypted:\n")
 elif name == "n1_plain_lock":      # negative control: a non-reentrant Lock is just as good
     sub(pe, "_PYPDF_PATCH_LOCK = threading.RLock()", "_PYPDF_PATCH_LOCK = threading.Lock()")
 else:
